@@ -54,6 +54,7 @@ type c03H struct {
 	minimal        int
 	infraNotes     int
 	seq            atomic.Int64
+	silentTotal    atomic.Int64
 	pkgsOK         atomic.Int64
 	snipsOK        atomic.Int64
 	runs           atomic.Int64
@@ -208,17 +209,23 @@ func (h *c03H) genPhase() {
 		res.Note("export data of std for the in-process IR dump: %v", err)
 		res.NotExhaustive("no export data")
 	}
-	if os.Getenv("C03_GEN_ONLY") == "api" { // development aid: only the API-trigger families
-		snips = nil
+	if os.Getenv("C03_GEN_ONLY") == "api" { // development aid: only the API-trigger and range-over-func families
+		var keep []*c03Snippet
+		for _, s := range snips {
+			if s.Fam == "rangefunc" {
+				keep = append(keep, s)
+			}
+		}
+		snips = keep
 		res.NotExhaustive("C03_GEN_ONLY=api")
 	}
-	pkgs := c03Pack(snips, 200, "p")
+	pkgs := c03PackByFam(snips, 200, "p")
 	// the API-trigger families import more of std: their own packages
 	api := c03APISnippets(vx.Thorough())
 	for _, s := range api {
 		fam[s.Fam]++
 	}
-	pkgs = append(pkgs, c03Pack(api, 200, "q")...)
+	pkgs = append(pkgs, c03PackByFam(api, 200, "q")...)
 	tIn := time.Now()
 
 	// in-process: type-check, drop what does not compile (generator bugs), measure IR coverage
@@ -493,11 +500,16 @@ func (h *c03H) genPackage(p *c03Pkg, o c03Outcome, v c03Verdict) {
 	for i := range remaining {
 		remaining[i] = i
 	}
+	// Even when the failure the package dies of is already reported often enough, a few more
+	// snippets are eliminated (without reporting them again): another defect may hide behind it.
+	silentLeft := 8
 	for len(remaining) > 0 {
 		sig := v.Sig()
 		mu := h.sigLock(sig)
 		mu.Lock()
-		if h.exhausted(sig) {
+		if h.exhausted(sig) && silentLeft > 0 && h.silentTotal.Add(1) <= 48 && time.Now().Before(h.bisectDeadline) {
+			silentLeft--
+		} else if h.exhausted(sig) {
 			mu.Unlock()
 			h.res.Count("snippets_masked_by_reported_crash", int64(len(remaining)))
 			h.res.NotExhaustive(fmt.Sprintf("%d snippets of %s are masked by an already reported failure (%s)", len(remaining), p.Name, sig))
@@ -620,6 +632,11 @@ func (h *c03H) genFindFirst(p *c03Pkg, idx []int, hint []int, o c03Outcome, v c0
 		bad, stop := try(idx)
 		if stop {
 			return giveUp(" (infrastructure trouble during bisection)")
+		}
+		if bad && i == 0 && h.exhausted(fv.Sig()) {
+			// one more instance of a failure that is reported already
+			h.res.Count("snippets_masked_by_reported_crash", 1)
+			return idx[0], true
 		}
 		if !bad {
 			if i == 0 {
